@@ -91,3 +91,13 @@ def run(chk):
         if r["outcome"] != "ok" or r["exit"] != 0 or got != want:
             chk.violation("list mode (%s), several blocks starting on one line: listed %s, written %s" % (mode, got, want),
                           {"concrete": {"files": shapes, "diff": diff, "args": ["list"]}, "observed": {k: r.get(k) for k in ("outcome", "exit", "list", "stderr")}})
+    # ... and when nothing is selected it still prints one JSON object ({}), in every way of selecting nothing
+    empties = [({"x.py": "x = 1\n", "lib/y.py": "y = 2\n"}, None, ["list"]), ({"x.py": "x = 1\n"}, None, ["list", "lib/**"]),
+               ({"x.py": '# <block name="b">\nx\n# </block>\n'}, "", ["list"]),
+               ({"x.py": '# <block name="b">\nx\n# </block>\nz = 1\n'}, "diff --git a/x.py b/x.py\n--- a/x.py\n+++ b/x.py\n@@ -4 +4 @@\n-z = 0\n+z = 1\n", ["list"])]
+    for k, (files, diff, args) in enumerate(empties):
+        r = vlib.run_cli_one({"id": "emptylist%d" % k, "files": files, "diff": diff, "args": args, "terminal": diff is None})
+        chk.count(nontrivial=True)
+        if r["outcome"] != "ok" or r["exit"] != 0 or r.get("list") != {}:
+            chk.violation("list mode with nothing selected: outcome %s, exit %s, stdout %r (one JSON object expected)" % (
+                r["outcome"], r["exit"], (r.get("stdout") or "")[:100]), {"concrete": {"files": files, "diff": diff, "args": args}})
